@@ -545,6 +545,12 @@ func (run *checkRun) failObligation(o *Obligation, r SolveResult) {
 		out, failing, _ := run.goTest(fc.searchPkg(), fc.Search, "", 0)
 		rec["search_test"] = fc.Search
 		rec["search_output"] = tail(out, 3000)
+		if failing != "" && run.onlyKnownFailures(fc.Search, out) != nil {
+			// the harness only reports the witness of a known finding: that input fails on the unchanged tree too and
+			// says nothing about this obligation
+			rec["search_note"] = "the search harness reports only the witness of a recorded known finding; not counted as a failing input for this obligation"
+			failing = ""
+		}
 		if failing != "" {
 			rec["failing_input"] = json.RawMessage(failing)
 			rec["confirmed"] = true
